@@ -28,6 +28,42 @@ def sh(cmd, cwd=None, env=None, timeout=3600):
     return p.returncode, p.stdout, p.stderr
 
 
+def run_checks(a, wt, meta):
+    checks = (a.checks or a.prop).split(",")
+    for c in checks:
+        env2 = dict(os.environ, VERIF_REPO=wt, VERIF_SEED=os.environ.get("VERIF_SEED", "1"))
+        t0 = time.time()
+        cmd = [os.path.join(VERIF, "check"), c, "--tier", a.tier, "--no-evidence"] + (["--only", a.only] if a.only else [])
+        rc, out, err = sh(cmd, cwd=VERIF, env=env2)
+        lines = [ln.strip() for ln in out.splitlines() if ln.startswith("  [")]
+        for ln in out.splitlines():
+            if ln.startswith("VIOLATION") and "replay=" in ln:
+                rp = ln.split("replay=")[1].strip()
+                if os.path.basename(rp).startswith("found_") and os.path.exists(rp):
+                    os.remove(rp)
+        if not a.only:
+            meta["checks"][c] = {
+                "exit": rc,
+                "caught": rc == 1,
+                "first_report": lines[0][:300] if lines else "",
+                "wall_s": round(time.time() - t0, 1),
+                "tier": a.tier,
+            }
+            meta["ran"].append(f"VERIF_REPO=<scratch with change> ./check {c} --tier {a.tier} -> exit {rc}")
+        print(c, "exit", rc, lines[0][:300] if lines else (err.strip().splitlines() or [""])[-1][:300])
+
+
+def recheck(a, wt):
+    mp = os.path.join(VERIF, "seeded", a.seed_id, "meta.json")
+    meta = json.load(open(mp))
+    meta.setdefault("checks", {})
+    meta.setdefault("ran", [])
+    run_checks(a, wt, meta)
+    if not a.only:
+        json.dump(meta, open(mp, "w"), indent=1)
+    return 0
+
+
 def main():
     ap = argparse.ArgumentParser()
     ap.add_argument("seed_id")
@@ -36,6 +72,8 @@ def main():
     ap.add_argument("--checks", default=None)
     ap.add_argument("--tier", default="quick")
     ap.add_argument("--needs", default="")
+    ap.add_argument("--recheck", action="store_true", help="skip suite and demo (already confirmed): only run the checks and merge the result into meta.json")
+    ap.add_argument("--only", default=None, help="pass --only <sub> to the check (not recorded in meta.json)")
     a = ap.parse_args()
     wt = f"/tmp/seedverify/{a.seed_id}"
     os.makedirs("/tmp/seedverify", exist_ok=True)
@@ -59,14 +97,17 @@ def main():
         demo = os.path.join(a.outdir, "demo.py")
         env = dict(os.environ, PYTHONPATH=f"{wt}/src", PYTHONHASHSEED="0")
         # demo on the unchanged tree
-        rc0, o0, e0 = sh(["/venv/bin/python", "-W", "ignore", demo], cwd=wt, env=env)
-        meta["demo_without_change_rc"] = rc0
-        meta["ran"].append("demo.py on unchanged worktree -> rc %d" % rc0)
+        if not a.recheck:
+            rc0, o0, e0 = sh(["/venv/bin/python", "-W", "ignore", demo], cwd=wt, env=env)
+            meta["demo_without_change_rc"] = rc0
+            meta["ran"].append("demo.py on unchanged worktree -> rc %d" % rc0)
         rc, out, err = sh(f"git apply {patch}", cwd=wt)
         if rc:
             print("patch does not apply:", err)
             meta["error"] = "patch does not apply: " + err[-300:]
             return 2
+        if a.recheck:
+            return recheck(a, wt)
         rc, out, err = sh(["/venv/bin/python", "-m", "pytest", "-q", "-p", "no:cacheprovider", "--timeout=900", "-n", "8", "tests"], cwd=wt, env=env)
         tail = (out.strip().splitlines() or ["?"])[-1]
         meta["suite_with_change"] = tail
@@ -76,27 +117,8 @@ def main():
         meta["ran"].append("demo.py with change -> rc %d: %s" % (rc1, (e1.strip().splitlines() or o1.strip().splitlines() or [""])[-1][:200]))
         ok = rc0 == 0 and rc1 != 0 and " failed" not in tail and "error" not in tail.lower() and "passed" in tail
         meta["confirmed"] = bool(ok)
-        checks = (a.checks or a.prop).split(",")
         meta["checks"] = {}
-        for c in checks:
-            env2 = dict(os.environ, VERIF_REPO=wt, VERIF_SEED=os.environ.get("VERIF_SEED", "1"))
-            t0 = time.time()
-            rc, out, err = sh([os.path.join(VERIF, "check"), c, "--tier", a.tier, "--no-evidence"], cwd=VERIF, env=env2)
-            lines = [ln.strip() for ln in out.splitlines() if ln.startswith("  [")]
-            for ln in out.splitlines():
-                if ln.startswith("VIOLATION") and "replay=" in ln:
-                    rp = ln.split("replay=")[1].strip()
-                    if os.path.basename(rp).startswith("found_") and os.path.exists(rp):
-                        os.remove(rp)
-            meta["checks"][c] = {
-                "exit": rc,
-                "caught": rc == 1,
-                "first_report": lines[0][:300] if lines else "",
-                "wall_s": round(time.time() - t0, 1),
-                "tier": a.tier,
-            }
-            meta["ran"].append(f"VERIF_REPO=<scratch with change> ./check {c} --tier {a.tier} -> exit {rc}")
-            print(c, "exit", rc, lines[0][:200] if lines else "")
+        run_checks(a, wt, meta)
         dst = os.path.join(VERIF, "seeded", a.seed_id)
         os.makedirs(dst, exist_ok=True)
         for fn in ("patch.diff", "demo.py", "notes.md"):
